@@ -3,6 +3,7 @@
 import MysticVerif.Basic.Proto
 import MysticVerif.Model.Dsl
 import MysticVerif.Model.Measures
+import MysticVerif.Model.Trimmed
 
 namespace MysticVerif.DrvC18
 open MysticVerif MysticVerif.Meas MysticVerif.Dsl
@@ -49,6 +50,30 @@ def distOf (kind : String) (p : Nat) (x y : List Float) : Option Float :=
   | "euclidean" => some (euclidean CF x y)
   | "manhattan" => some (manhattan CF x y)
   | _ => none
+
+
+/-- `numpy.rint` (round half to even); every binary64 of magnitude >= 2^52 is an integer -/
+def rintF (y : Float) : Float :=
+  if y.isNaN || y.abs ≥ 4503599627370496.0 then y
+  else
+    let f := y.floor
+    let d := y - f                                   -- exact
+    if d < 0.5 then f else if d > 0.5 then f + 1.0
+    else if (f / 2.0).floor * 2.0 == f then f else f + 1.0
+
+/-- `ndarray.round(15)`: numpy multiplies by `10**15`, applies `rint`, divides by `10**15`;
+`.01` is given by its bit pattern -/
+def TF : TConsts Float :=
+  { rnd := fun x => rintF (x * Float.ofBits 4831355200913801216) / Float.ofBits 4831355200913801216,
+    c01 := Float.ofBits 4576918229304087675,
+    fin := Float.isFinite }
+
+/-- the `ValueError`s of `_k` (l.1557-1562) on the percentages -/
+def kBadPercent (klo khi : Float) : Bool := klo + khi > 100.0 || klo < 0.0 || khi < 0.0
+
+/-- `_k` raises `IndexError` for the sorted weights of this sample -/
+def trimRaises (xs : List Float) (ws : Option (List Float)) (klo khi : Float) (clip : Bool) : Bool :=
+  kRaises TF ((sortedOf xs ws).map (·.2)) klo khi clip
 
 def handle : Handler
   | .sym "mean" :: args => Id.run do
@@ -189,6 +214,33 @@ def handle : Handler
     let some rel := (kw? args "rel").bind Val.asFloat? | return "bad-op"
     if x.length != y.length then return "bad-op"
     return s!"ok b={pB (almostEqual x y tol rel)}"
+  | .sym "trim" :: args => Id.run do
+    let some kind := (kw? args "kind").bind Val.asSym? | return "bad-op"
+    let some xs := (kw? args "xs").bind Val.asFloats? | return "bad-op"
+    let some ws := (kw? args "ws").bind optFloats? | return "bad-op"
+    let some klo := (kw? args "klo").bind Val.asFloat? | return "bad-op"
+    let some khi := (kw? args "khi").bind Val.asFloat? | return "bad-op"
+    let some clip := (kw? args "clip").bind Val.asBool? | return "bad-op"
+    let t := ((kw? args "t").bind Val.asFloat?).getD 0.0
+    if xs.isEmpty then return "bad-op"
+    match ws with
+    | some w => if w.length != xs.length then return "bad-op"
+    | none => pure ()
+    if kBadPercent klo khi then return "err value"
+    if trimRaises xs ws klo khi clip then return "err index"
+    match kind with
+    | "k" =>
+      let norm := ((kw? args "norm").bind Val.asBool?).getD false
+      return s!"ok x={pFs (sortedX xs ws)} w={pFs (kTrim TF ((sortedOf xs ws).map (·.2)) klo khi clip norm)}"
+    | "stat" =>
+      return s!"ok tmean={pF (tmean TF xs ws klo khi clip)} tvar={pF (tvariance CF TF xs ws klo khi clip)} tstd={pF (tstd CF TF xs ws klo khi clip)}"
+    | "impose_tmean" => return s!"ok y={pFs (imposeTmean TF t xs ws klo khi clip)}"
+    | "impose_tvariance" | "impose_tstd" =>
+      let v := if kind == "impose_tstd" then t * t else t
+      let tv := tvariance CF TF xs ws klo khi clip
+      if truthy tv && trimRaises (xs.map (· * Float.sqrt (v / tv))) ws klo khi clip then return "err index"
+      return s!"ok y={pFs (imposeTvariance CF TF v xs ws klo khi clip)}"
+    | _ => return "bad-op"
   | .sym "robust" :: args => Id.run do
     let some kind := (kw? args "kind").bind Val.asSym? | return "bad-op"
     let some xs := (kw? args "xs").bind Val.asFloats? | return "bad-op"
